@@ -197,6 +197,17 @@ class DENMTransmissionManagement:
         self.vehicle_data = vehicle_data
         self.denm_coder = denm_coder
         self.sequence_number = 0
+        self._sequence_number_lock = threading.Lock()
+
+    def _next_sequence_number(self) -> int:
+        """
+        Allocate the sequence number of a new event: together with the station id it forms
+        the actionId, which all DENMs of one event share and no other event of this station uses.
+        """
+        with self._sequence_number_lock:
+            sequence_number = self.sequence_number
+            self.sequence_number = (self.sequence_number + 1) % 65536
+        return sequence_number
 
     def request_denm_sending(self, denm_request: DENRequest) -> None:
         """
@@ -211,6 +222,7 @@ class DENMTransmissionManagement:
         Request to send a single DENM message with the Collision Risk Warning data.
         """
         crw_denm = DecentralizedEnvironmentalNotificationMessage()
+        crw_denm.sequence_number = self._next_sequence_number()
         crw_denm.fullfill_with_vehicle_data(self.vehicle_data)
         crw_denm.fullfill_with_collision_risk_warning(denm_request)
         self.transmit_denm(crw_denm)
@@ -225,8 +237,10 @@ class DENMTransmissionManagement:
             DENM Request object.
         """
         transmission_time = 0
+        event_sequence_number = self._next_sequence_number()
         while transmission_time < denm_request.time_period:
             new_denm = DecentralizedEnvironmentalNotificationMessage()
+            new_denm.sequence_number = event_sequence_number
             new_denm.fullfill_with_vehicle_data(self.vehicle_data)
             new_denm.fullfill_with_denrequest(denm_request)
             self.transmit_denm(new_denm)
